@@ -243,6 +243,15 @@ def escape_table(rep):
                     ok = got[0] == "value" and type(got[1]) is ct.BytesType and bytes(got[1]) == bytes([v])
                     if not ok:
                         fails.append({"literal": lit, "runner": runner, "observed": repr(got), "expected": bytes([v])})
+    # a \U escape that denotes no code point is an evaluation error in both runners (not a value, not another exception)
+    for v in (0x110000, 0x7FFFFFFF, 0x80000000, 0xFFFFFFFF):
+        for q in ('"', "'"):
+            lit = q + f"\\U{v:08X}" + q
+            for runner in ("InterpretedRunner", "CompiledRunner"):
+                n += 1
+                got = R.eval(runner, lit)
+                if got[0] != "error":
+                    fails.append({"literal": lit, "runner": runner, "observed": repr(got), "expected": "evaluation error"})
     o = V.table_obl(rep, f"E:escape-table[{n} literals]", "celstr / celbytes", "each escape expands to the code point / octet it spells", not fails,
                     "input: " + repr(fails[0])[:300] if fails else f"{n} literals")
     if fails:
